@@ -57,14 +57,15 @@ TIERS = {
         api_sample=4000,
     ),
     'thorough': dict(
-        abstract=[dict(name='M9', M=9, ctor=2, maxT=9, windows=[1, 65, 0xD7FC, 0xFFFC, MAXU1 + 1 - 9]),
-                  dict(name='M11-prim', M=11, ctor=3, maxT=1, windows=[1, 0x2FFF, MAXU1 + 1 - 11])],
+        abstract=[dict(name='M8', M=8, ctor=2, maxT=8, windows=[1, 65, 0xD7FC, 0xFFFC, MAXU1 + 1 - 8]),
+                  dict(name='M10-prim', M=10, ctor=3, maxT=1, windows=[1, 0x2FFF, MAXU1 + 1 - 10])],
         unique_M=6,
         closure_depth=99,
         costly_mod=2003,
-        cc=dict(M=7, W=[1, 65, MAXU1 + 1 - 7], depth=6, max_states=60000),
-        impl=dict(M=7, seqlen=2, ctor=2, maxT=7, demo_M=6),
+        cc=dict(M=7, W=[1, 65, MAXU1 + 1 - 7], depth=6, max_states=40000),
+        impl=dict(M=7, seqlen=1, ctor=2, maxT=2, demo_M=6),
         install_versions='all',
+        apalache_timeout=600,
         api_sample=60000,
     ),
 }
@@ -165,7 +166,8 @@ FORMS = {'AddCp': ['add'], 'AddRange': ['add'], 'DiscardCp': ['discard'], 'Disca
          'Ior': ['subset', 'pieces', 'str', 'binop'], 'Isub': ['subset', 'pieces', 'str', 'binop', 'difference'],
          'Iand': ['subset', 'pieces', 'str', 'binop'], 'Ixor': ['subset', 'pieces', 'str', 'binop', 'self'],
          'Complement': ['ctor_complement'], 'Clear': ['clear'],
-         'Assign': ['ctor_list', 'setter', 'ctor_tuple', 'ctor_iter'], 'BadArg': ['call']}
+         'Assign': ['ctor_list', 'setter', 'ctor_tuple', 'ctor_iter', 'iter_code_points', 'iter_code_points_rev'],
+         'BadArg': ['call']}
 
 ITERATES_OTHER = {'Ixor'}       # the code walks the ints of the other operand
 ITERATES_DIFF = {'Iand'}        # the code walks the ints of self - other
@@ -266,6 +268,15 @@ def apply_us(US, u, win: Win, action: str, args: tuple, form: str, canon_of, see
             return US(tuple(ps)), None
         if form == 'ctor_iter':
             return US(iter(ps)), None
+        if form in ('iter_code_points', 'iter_code_points_rev'):
+            # the public generator must yield THE canonical pieces (ascending / descending)
+            from elementpath.regex import iter_code_points
+            got = list(iter_code_points(list(ps), reverse=form.endswith('_rev')))
+            want = win.pieces(G['cur_rep2'])
+            if got != (want[::-1] if form.endswith('_rev') else want):
+                G['last_raw'] = got
+                return US(), 'iter_code_points'
+            return US(list(want)), None
         raise ValueError(form)
     T = args[0]
     if form == 'self':
@@ -403,6 +414,7 @@ def us_worker(job):
         src_real = win.pieces(src_abs)
         for ei, (dst, action, args) in enumerate(out[sid]):
             S2, rep2 = states[dst]
+            G['cur_rep2'] = rep2
             if action in ('Update', 'DiffUpdate', 'Ior', 'Isub', 'Iand', 'Ixor'):
                 T = args[0]
                 if reduced and len(T) > 2:
@@ -431,14 +443,14 @@ def us_worker(job):
                         continue
                     stats['evaluations'] += 1
                     if note:
-                        kind, set_ok, raw = note, True, list(r.codepoints)
+                        kind, set_ok, raw = note, True, (G.pop('last_raw') if 'last_raw' in G else list(r.codepoints))
                     else:
                         kind, set_ok, raw = observe_us(US, r, win, S2, rep2)
                 except Exception as e:   # outcome class 'escaped'
                     kind, set_ok, raw = 'exception:' + type(e).__name__, False, repr(e)[:200]
                 if kind is None:
-                    if len(samples) < 3 and action in ('AddRange', 'Ixor', 'Complement') and len(rep2) > 1 \
-                            and S2 != S and (sid + ei) % 17 == 0:
+                    if action in ('AddRange', 'Ixor', 'Complement', 'DiscardRange') and len(rep2) > 1 and S2 != S \
+                            and len(S) > 1 and form == PRIMARY[action] and not any(x['op'] == action for x in samples):
                         samples.append(dict(impl='UnicodeSubset', source=src_real, op=action,
                                             args=core.jsonable(args), form=form, window_offset=W,
                                             expected_raw=win.pieces(rep2)))
@@ -764,7 +776,8 @@ def run_abstract(chk: core.Check, conf: dict, closure_depth: int) -> None:
                     seen[job[0]].add(ns)
                     frontier[job[0]].add(ns)
             for s in samples:
-                chk.sample(s, cap=8)
+                if sum(1 for x in chk.coverage['samples'] if x.get('op') == s['op']) < 2:
+                    chk.sample(s, cap=8)
         # phase 2: histories -- every state reached from the empty set through transitions that passed
         hjobs = []
         unreached = 0
@@ -902,6 +915,7 @@ def fidelity_worker(job):
     def real(p):
         return W + p[0] if len(p) == 1 else (W + p[0], W + p[1])
     match = 0
+    ctor_n = ctor_match = 0
     diffs = []
     for (s, d, a, args) in edges:
         try:
@@ -931,12 +945,16 @@ def fidelity_worker(job):
             got = list(u.codepoints)
         except Exception as e:
             got = repr(e)[:100]
-        if got == [real(p) for p in states[d]]:
+        same = got == [real(p) for p in states[d]]
+        if a == 'OpCtor':           # the list constructor is judged separately from the mutating algorithms
+            ctor_n += 1
+            ctor_match += same
+        elif same:
             match += 1
         elif len(diffs) < 3:
             diffs.append(dict(source=[real(p) for p in states[s]], op=a, args=core.jsonable(args),
                               model=[real(p) for p in states[d]], code=got))
-    return match, len(edges), diffs
+    return match, len(edges) - ctor_n, diffs, ctor_match, ctor_n
 
 
 def run_impl(chk: core.Check, conf: dict) -> None:
@@ -956,7 +974,7 @@ def run_impl(chk: core.Check, conf: dict) -> None:
         demos.append(dict(model='CodePointSetImpl/AsImplemented', defect=what, violated_invariant=want,
                           counterexample=trace[-9:]))
         chk.coverage.setdefault('models', []).append(
-            {'module': f'CodePointSetImpl/AsImplemented-demo-{what}', 'generated': r.generated, 'distinct': r.distinct,
+            {'module': f'CodePointSetImpl/AsImplemented-demo-{want}', 'demonstrates': what, 'generated': r.generated, 'distinct': r.distinct,
              'depth': r.depth, 'tlc_wall_s': round(r.wall_s, 1), 'expected_violation': want})
     chk.coverage['design_defect_demonstrated_by_tlc'] = demos
     # (2) closure of both variants with the invariants each one must satisfy, graphs dumped
@@ -985,20 +1003,24 @@ def run_impl(chk: core.Check, conf: dict) -> None:
             rnd = random.Random(chk.seed)
             edges = rnd.sample(edges, 400000)
         jobs = [(W, ch) for W in (65, MAXU1 - M) for ch in core.chunked(edges, 16)]
-        m = n = 0
+        m = n = cm = cn = 0
         diffs = []
-        for a, b, d in core.pool_map(fidelity_worker, jobs):
+        for a, b, d, c1, c2 in core.pool_map(fidelity_worker, jobs):
             m += a
             n += b
+            cm += c1
+            cn += c2
             diffs += d
-        fid[variant] = dict(edges_replayed=n, raw_list_equal=m, first_differences=diffs[:2])
-        chk.add('evaluations', n)
-        chk.add('impl_model_transitions_replayed', n)
+        fid[variant] = dict(edges_replayed=n, raw_list_equal=m, first_differences=diffs[:2],
+                            list_constructor_edges=cn, list_constructor_equal=cm)
+        chk.add('evaluations', n + cn)
+        chk.add('impl_model_transitions_replayed', n + cn)
     match = [v for v, f in fid.items() if f['edges_replayed'] == f['raw_list_equal']]
     chk.coverage['transcription_fidelity'] = dict(
         note='raw _codepoints list of the real object == list of the CodePointSetImpl model on every replayed edge',
         matching_variant=match[0] if match else 'none',
         **{v: dict(edges_replayed=f['edges_replayed'], raw_list_equal=f['raw_list_equal'],
+                   list_constructor_edges=f['list_constructor_edges'], list_constructor_equal=f['list_constructor_equal'],
                    **({'first_differences': f['first_differences']} if v not in match and not match else {}))
            for v, f in fid.items()})
     print(f'  impl: AsImplemented states={graphs["AsImplemented"]["distinct"]} Fixed states={graphs["Fixed"]["distinct"]} '
@@ -1289,6 +1311,52 @@ def run_tables(chk: core.Check, conf: dict) -> None:
 # ---------------------------------------------------------------------------------------------
 
 
+def run_apalache(chk: core.Check, timeout_s: int) -> None:
+    """best effort: Canonical is an INDUCTIVE invariant of the repaired add()/discard() for symbolic code points
+    (spec/CodePointSetInd.tla).  Nothing depends on the outcome; it is recorded in the evidence."""
+    wd = os.path.join(chk.scratch, 'apalache')
+    os.makedirs(wd, exist_ok=True)
+    src = os.path.join(tla.SPEC_DIR, 'CodePointSetInd.tla')
+    with open(src) as f:
+        text = f.read()
+    with open(os.path.join(wd, 'CodePointSetInd.tla'), 'w') as f:
+        f.write(text)
+    cmd = ['apalache-mc', 'check', '--init=IndInit', '--inv=StepInv', '--length=1', '--cinit=ConstInit',
+           '--out-dir=' + os.path.join(wd, 'out'), 'CodePointSetInd.tla']
+    rec = dict(module='CodePointSetInd', cmd=' '.join(cmd[:6]), obligation='from any canonical list of <= 4 pieces over '
+               '0..0x10FFFF one add/discard of any range gives a canonical list denoting the updated set')
+    t0 = time.time()
+    try:
+        p = subprocess.run(cmd, cwd=wd, capture_output=True, text=True, timeout=timeout_s)
+        out = p.stdout + p.stderr
+        rec['outcome'] = 'NoError' if 'The outcome is: NoError' in out else \
+            'Error' if 'The outcome is: Error' in out else 'failed to run'
+        rec['discharged'] = rec['outcome'] == 'NoError'
+        if rec['outcome'] == 'Error':
+            raise tla.MachineryError('Apalache refutes the inductive invariant of spec/CodePointSetInd.tla:\n' + out[-1500:])
+        if rec['discharged']:
+            # the proof must not be vacuous: the same check on a broken fold must fail
+            bad = text.replace('IF p[2] < acc.s THEN [acc EXCEPT', 'IF p[2] <= acc.s THEN [acc EXCEPT')
+            if bad == text:
+                raise tla.MachineryError('CodePointSetInd.tla: mutation site not found')
+            with open(os.path.join(wd, 'CodePointSetInd.tla'), 'w') as f:
+                f.write(bad)
+            p2 = subprocess.run(cmd[:-2] + ['--out-dir=' + os.path.join(wd, 'out2'), 'CodePointSetInd.tla'], cwd=wd,
+                                capture_output=True, text=True, timeout=timeout_s)
+            rec['mutated_spec_refuted'] = 'The outcome is: Error' in (p2.stdout + p2.stderr)
+            if not rec['mutated_spec_refuted']:
+                raise tla.MachineryError('Apalache accepts a broken add fold: the inductive check is vacuous')
+    except subprocess.TimeoutExpired:
+        rec['outcome'] = f'not discharged (timeout {timeout_s}s)'
+        rec['discharged'] = False
+    except FileNotFoundError:
+        rec['outcome'] = 'not discharged (apalache-mc not installed)'
+        rec['discharged'] = False
+    rec['wall_s'] = round(time.time() - t0, 1)
+    chk.coverage['apalache_inductive_invariant'] = rec
+    print(f'  apalache: {rec["outcome"]} ({rec["wall_s"]}s)', flush=True)
+
+
 def replay(rec: dict) -> int:
     core.setup_repo_path()
     case = rec['case']
@@ -1310,6 +1378,7 @@ def replay(rec: dict) -> int:
             canon_of[args[0]] = tuple((a,) if (b == a + 1 and a not in win.wide) else (a, b) for a, b in runs(args[0]))
         G['canon_of'] = canon_of
         G['cur_S'] = frozenset(case['S'])
+        G['cur_rep2'] = rep2
         try:
             u = US(win.pieces(tup(case['src'])))
             r, note = apply_us(US, u, win, action, args, form, canon_of, case.get('seed', 0))
@@ -1368,7 +1437,15 @@ def run(chk: core.Check) -> None:
     run_cc(chk, conf['cc'])
     run_impl(chk, conf['impl'])
     run_tables(chk, conf)
-    chk.coverage['exhaustive'] = True
+    if conf.get('apalache_timeout'):
+        run_apalache(chk, conf['apalache_timeout'])
+    skipped = chk.coverage.get('skipped_costly', 0) + chk.coverage.get('cc_skipped_costly', 0)
+    chk.coverage['exhaustive'] = skipped == 0
+    if skipped:
+        chk.coverage['exhaustive_except'] = (
+            f'{skipped} transitions whose implementation walks every single code point of an outer block '
+            '(^=, &=, difference(UnicodeSubset), CharacterClass calls on a class holding a block in `negative`; '
+            'about a second each) were replayed on a sample only; every other transition of the graphs was replayed')
     chk.coverage['rule'] = (
         'one case = one transition of the TLC state graph of CodePointSet (every action x every argument from every '
         'subset of the abstract universe), replayed in every window and every argument form; plus one case per '
